@@ -18,6 +18,7 @@ StyleName(st) == CASE st = "a" -> <<"a">>
                    [] st = "my_field" -> MyField
                    [] st = "myField" -> <<"m","y","F","i","e","l","d">>
                    [] st = "x2_y" -> <<"x","2","_","y">>
+                   [] st = "type" -> <<"t","y","p","e">>      \* a keyword: written `r#type` in the program, `type` on the wire
                    [] st = "_p" -> <<"_","p">>
                    [] st = "p__q" -> <<"p","_","_","q">>
                    [] st = "q_" -> <<"q","_">>
@@ -25,7 +26,7 @@ StyleName(st) == CASE st = "a" -> <<"a">>
                    [] st = "FooBar" -> <<"F","o","o","B","a","r">>
                    [] st = "Nt2X" -> <<"N","t","2","X">>
                    [] st = "HTTPOk" -> <<"H","T","T","P","O","k">>
-FieldStyles == {"a", "my_field", "myField", "x2_y"}
+FieldStyles == {"a", "my_field", "myField", "x2_y", "type"}
 OddStyles == {"_p", "p__q", "q_"}            \* legal Rust field names with empty words
 Digit(i) == <<"1", "2", "3", "4">>[i]
 RenameOf(rclass, i) == CASE rclass = "none" -> <<>> [] rclass = "plain" -> <<"r", Digit(i)>> [] rclass = "dash" -> <<"r", "-", Digit(i)>>
